@@ -12,6 +12,8 @@ Three kinds of cases:
 * world histories (`hist` present; generators and the oracle's bookkeeping in c17world.py): observations shared between
   tracks, every entry point, in-place edits of positions and timestamp fields; model `Model/CinematicsTab.lean`
   (driver `C17.world`). The oracle recomputes from the CURRENT positions and stamps after every operation.
+  With `cls` present as well: the pool's position objects are GeoCoords / ECEFCoords (or ENUCoords through the class-generic
+  step); model `Model/CinematicsTabK.lean` (driver `C17.worldc`).
 In every stream the stamps may carry `zone` fields ("zones" of the case; a track merged from loggers set to different zones):
 every field of every stamp, zone included, must be what it was after every computation."""
 import math, calendar, itertools, time as _time
@@ -72,10 +74,26 @@ class P(Prop):
         ("TracklibVerif.Props.C17", "TV.C17.length_table", "the VALUE of Track.length() on a lawful table: only reads, returns the 3D legs sqrt(dx^2+dy^2+dz^2) of P[k+1]-P[k] accumulated in Python's order (any scalar type)"),
         ("TracklibVerif.Props.C17", "TV.C17.duration_table", "the VALUE of Track.duration() on a lawful table of >= 1 fixes: only reads, returns ts[n-1] - ts[0] of the current stamps"),
         ("TracklibVerif.Props.C17", "TV.C17.sorted_table", "the VALUE of Track.isSorted() on a lawful table: true exactly when no consecutive time difference is <= 0 (strictly increasing; a repeated stamp gives False)"),
+        ("TracklibVerif.Props.C17", "TV.C17.class_kernel_defines", "the kernel of a class with a planimetric distance (ENU, Geo) behind the Track API: Obs.distance2DTo does not refuse, position.distance2DTo never raises, both compute the class distance of class_distance on the coordinates of the two position objects"),
+        ("TracklibVerif.Props.C17", "TV.C17.enu_programs_are_instances", "computeAbsCurvT / estimateSpeedT (the ENU table programs) are the class-generic programs instantiated at analytics.ds / analytics.speed with the ENUCoords distance (by rfl: the same program text)"),
+        ("TracklibVerif.Props.C17", "TV.C17.abscurv_table_class", "T1 on ANY lawful feature table for every class with a planimetric distance (Geo included): computeAbsCurv terminates, returns s[0]=0, s[i+1]=s[i]+d_class(P[i+1],P[i]) of the CURRENT positions, abs_curv reads it, ds is removed, every other name / coordinate / time / the invariant unchanged; any scalar type (Float with libm included)"),
+        ("TracklibVerif.Props.C17", "TV.C17.abscurv_table_class_again", "on a lawful table of a Geo / ENU track that lists abs_curv, computeAbsCurv returns the listed column and every name / coordinate reads as before"),
+        ("TracklibVerif.Props.C17", "TV.C17.speed_table_class", "T2 on any lawful table for every class with a planimetric distance: estimate_speed returns the column with fixes (1,0)/(n-1,n-2)/(i+1,i-1), NaN iff the elapsed time is zero, else d_class / elapsed, of the CURRENT positions and times; speed reads it; nothing else changes"),
+        ("TracklibVerif.Props.C17", "TV.C17.speed_table_class_again", "on a lawful table that lists speed, estimate_speed returns the listed column and does not change the state — for ANY kernel (ECEF included: no distance is taken)"),
+        ("TracklibVerif.Props.C17", "TV.C17.curvabs_table_class", "computeCurvAbsBetweenTwoPoints on a lawful table of a Geo / ENU track only reads and returns the legs d_class(P[k],P[k+1]) accumulated in Python's order (for Geo: tangent frame at the LATER fix, the other end than ds)"),
+        ("TracklibVerif.Props.C17", "TV.C17.abscurv_monotone_class", "the column abscurv_table_class returns never decreases for every class WITHOUT exact arithmetic (0 <= sqrt x, a <= a+d for d >= 0), whatever the trigonometric functions return"),
+        ("TracklibVerif.Props.C17", "TV.C17.class_columns_def", "the entries of the columns of abscurv_table_class / speed_table_class for any distance d: s[0]=0, s[i+1]=s[i]+d(P[i+1],P[i]); speed: one value per fix, fixes (1,0)/(n-1,n-2)/(i+1,i-1), NaN iff the elapsed time is zero, else d(P[a],P[b]) / elapsed"),
+        ("TracklibVerif.Props.C17", "TV.C17.ecef_refused_table", "ECEF tracks on any lawful table of n>=2 fixes (shared observations included): computeAbsCurv ends in the refusal raised at fix 1, a ds column stays listed with 0 at fix 0, no abs_curv; estimate_speed ends in the AttributeError at fix 0, a speed column stays listed; every other name, coordinates, times, invariant unchanged"),
+        ("TracklibVerif.Props.C17", "TV.C17.abscurv_shared_class", "computeAbsCurv(track k) on a pool of Geo (or ENU) observations SHARED between tracks, as one step of a history: prefix sums of the class distance of the current positions whatever foreign slots the objects carry; track k reads them under abs_curv"),
+        ("TracklibVerif.Props.C17", "TV.C17.speed_shared_class", "estimate_speed(track k) on shared Geo (or ENU) observations: speed column of the class distance of the current positions and of the absolute times of the CURRENT timestamp fields"),
+        ("TracklibVerif.Props.C17", "TV.C17.positions_and_stamps_unchanged_class", "for EVERY kernel (ENU, Geo, ECEF with its refusal and AttributeError, anything else), every world and every feature operation, exceptions included: position and stamp (seven calendar fields and zone) of every observation object and the reference list of every track are unchanged"),
+        ("TracklibVerif.Props.C17", "TV.C17.zone_not_read_class", "for every kernel: no operation on features reads the zone field of a stamp (same value / same exception on a world with rewritten zones, rewritten final world)"),
     ]
     partial = []
     open_statements = ["IEEE rounding of sqrt / + / division is outside the theorems (ordered-field statement; the recurrences abscurv_prefix / abscurv_table / speed_table hold for any scalar type, so also for the Float operations in Python's order); sampled by the transfer check with rel. tolerance 1e-9",
-                       "world histories (shared observations, in-place edits) are generated for ENUCoords only; Geo / ECEF tracks are single-track cases (Model/CinematicsCoords.lean is a list model, not yet an instance of the table laws)",
+                       "Model/CinematicsCoords.lean (the list model of one track per coordinate class, driver `C17.coords`) and Model/CinematicsTabK.lean (the same dispatch behind the Track API, driver `C17.worldc`) are two models of the same Python: both are compared with the implementation on every run, no Lean theorem relates them to each other (the table theorems *_table_class are about the second)",
+                       "Track.length() (3D, Obs.distanceTo -> GeoCoords / ECEFCoords.distanceTo) is modelled for ENUCoords only: not generated on Geo / ECEF pools",
+                       "the ENU kernel of Model/CinematicsTabK.lean (worldc N) answers NaN when the THIRD coordinate of a fix is NaN, whereas ENUCoords.distance2DTo does not read U; the pools generated and the hypotheses of the class theorems have finite coordinates (the ENU world stream proper, `world`, goes through Model/CinematicsTab.lean, which does not read U)",
                        "geo_distance_horizontal is over the reals: the rounding of the geodetic -> ECEF -> local-frame chain (sin, cos, atan2, pow, sqrt of libm) is outside the theorems; the oracle bounds it by 1e-6 m against its own geodesy (measured < 1e-8 m)",
                        "GeoCoords.toENUCoords is modelled for STANDARD_PROJ == 1 (the module constant of this tree) only"]
     modelled = ("algo/analytics.py ds, speed; core/obs.py Obs.distance2DTo with __check_call_geom1 (ECEF refused); core/obs_coords.py ENUCoords.distance2DTo/distanceTo/__sub__/norm2D/norm, "
@@ -88,8 +106,12 @@ class P(Prop):
                 "core/obs_time.py toAbsTime / __sub__ from the CURRENT fields (C03's ObsTimeG.toAbsG), the zone field of ObsTime (carried by every observation object of the world; read by no feature program); "
                 "two models: Model/Cinematics.lean (a track = lists + name->column map) and Model/CinematicsTab.lean (the programs on the Track API of C01's "
                 "Model/Features.lean, instantiated at the specification table and at a WORLD of observation objects shared between tracks); "
-                "Model/CinematicsCoords.lean: the same programs on a track of one coordinate class (ENU / Geo / ECEF), with the dispatch of distance2DTo and the exceptions")
+                "Model/CinematicsCoords.lean: the same programs on a track of one coordinate class (ENU / Geo / ECEF), with the dispatch of distance2DTo and the exceptions; "
+                "Model/CinematicsTabK.lean: that dispatch (Obs.__check_call_geom1, <class>.distance2DTo) as a KERNEL behind the Track API — analytics.ds / speed, addAnalyticalFeature with its "
+                "exception path, computeAbsCurv, estimate_speed (function and method), computeCurvAbsBetweenTwoPoints written once for any kernel — and `stepK`: the histories of the world model "
+                "(shared Obs objects, +, extract, slicing, copy(), in-place edits, removals) on pools of GeoCoords / ECEFCoords position objects")
     trusted = ["math.sqrt / x**2 are taken as correctly rounded sqrt and x*x (ENU path); on the Geo path x ** 2 is libm's pow(x, 2.0) and sin / cos / atan2 / sqrt are libm's, the same functions Lean's Float calls",
+               "class pools of the world stream (`worldc`): Features.Err has no constructor for CoordTypeError / AttributeError; the model's kernel takes the two Err values as parameters (the theorems hold for every choice other than IndexError), the driver instantiates them (Err.type, Err.key) and prints them err:refused / err:attr",
                "coords stream: which exception CLASS a refusal raises is not compared (obs.py raises CoordTypeError without importing the name, so a NameError surfaces); NameError and CoordTypeError both count as the refusal",
                "single-track stream (`run`): ObsTime.toAbsTime() values are computed by the harness as sec + ms/1000.0; world stream: the model computes them from the timestamp fields (C03's toAbsG)"]
     rule = ("exhaustive: all tracks of 2..4 (quick) / 2..5 (thorough) fixes whose legs are k*(3,4), k in {-1,0,1,2}, with dt in {0,1,2} s, op word 'asas'; "
@@ -109,7 +131,10 @@ class P(Prop):
             "(steps 0 / 1e-8 .. 1 degree along a parallel, a meridian or oblique, heights -400..9000 m with jumps, longitudes wrapping at +-180, latitudes up to the poles), 20 % ENUCoords, 20 % ECEFCoords, "
             "op words over {computeAbsCurv, estimate_speed (function, method), computeCurvAbsBetweenTwoPoints, addAnalyticalFeature(ds), Obs.distance2DTo of consecutive fixes}, features present beforehand, 25 % with zone fields; the oracle recomputes "
             "the planimetric distance of Geo fixes with its own geodesy (tangent frame at either fix accepted, 1e-6 m allowance) and checks positions, their CLASS and the stamps after every case, refused or not. "
-            "non-trivial = at least 2 fixes, one non-zero leg (world: and at least one computation; coords: a class that defines a planimetric distance)")
+            "WORLD histories on pools of GeoCoords (70 %) / ECEFCoords (20 %) / ENUCoords (10 %) position objects (driver `C17.worldc`, at Float): the same templates and free histories on the walks of c17coords.py, "
+            "in-place edits of lon / lat / hgt (setX, setObsAnalyticalFeature, attribute, new coordinate object), 10 directed histories on the Paris walk per class; the oracle checks every computation "
+            "against its own geodesy of the CURRENT positions, the CLASS of every position object and every stamp field after every operation, ECEF pools for purity only (refusals expected). "
+            "non-trivial = at least 2 fixes, one non-zero leg (world: and at least one computation; coords / class worlds: a class that defines a planimetric distance)")
 
     def setup(self):
         from tracklib.core.obs import Obs
@@ -159,6 +184,10 @@ class P(Prop):
             out += W.enum_world(3)
         for _ in range(nrand * 2):
             out.append(W.gen_world(rng))
+        # the same histories on pools of GeoCoords / ECEFCoords position objects (Model/CinematicsTabK.lean, driver `C17.worldc`)
+        out += W.enum_world_classes()
+        for _ in range(nrand // 2):
+            out.append(W.gen_world(rng, cls=self.world_cls(rng)))
         # one track per coordinate class (c17coords.py): directed walks first, then random
         out += C.enum_coords()
         for _ in range(nrand):
@@ -168,6 +197,11 @@ class P(Prop):
             out.append({"kind": "single", "mode": "q", "pos": [[rng.randrange(-5, 5), rng.randrange(-5, 5), 1]],
                         "tms": [rng.randrange(0, 10 ** 9) * 1000], "feats": [], "ops": rng.choice(self.OPS)})
         return out
+
+    @staticmethod
+    def world_cls(rng):
+        r = rng.random()
+        return "G" if r < 0.7 else "X" if r < 0.9 else "N"
 
     def times(self, rng, n, ms=False):
         t = [rng.choice([0, 1, 86399, 951782400, rng.randrange(0, 2 * 10 ** 9)]) * 1000]
@@ -414,6 +448,8 @@ class P(Prop):
             yield self.lattice(rng)
         for _ in range(20):
             yield W.gen_world(rng)
+        for _ in range(8):
+            yield W.gen_world(rng, cls=self.world_cls(rng))
         for _ in range(10):
             yield self.with_zones(rng, C.gen_coords(rng, self.times))
 
@@ -681,19 +717,20 @@ class P(Prop):
         if not W.valid_case(case):
             return {"invalid": True}
         H = []
+        cls = self.COORDS[case.get("cls", "N")]
         for p, tms, z in zip(case["pos"], case["tms"], W.zones_of(case)):
-            H.append(self.Obs(self.ENU(p[0], p[1], p[2]), self.stamp(tms, z)))
+            H.append(self.Obs(cls(p[0], p[1], p[2]), self.stamp(tms, z)))
         tracks = [self.Track(list(H), 1)]
         ops = []
         for op in case["hist"]:
             k = op[1]
             pre = self.w_table(tracks[k])
             try:
-                rec = {"r": self.w_apply(H, tracks, op)}
+                rec = {"r": self.w_apply(H, tracks, op, cls)}
             except BaseException as e:
                 if isinstance(e, KeyboardInterrupt):
                     raise
-                rec = {"err": err_kind(e)}
+                rec = {"err": self.c_err(e) if "cls" in case else err_kind(e)}
             rec["pre"], rec["post"], rec["heap"] = pre, self.w_table(tracks[k]), self.w_heap(H)
             ops.append(rec)
         final = []
@@ -730,11 +767,14 @@ class P(Prop):
         out = []
         for o in H:
             s, c = o.timestamp, o.position
-            out.append({"xyz": [c.E, c.N, c.U], "t": [s.year, s.month, s.day, s.hour, s.min, s.sec, s.ms, s.zone], "nf": len(o.features)})
+            out.append({"xyz": [c.getX(), c.getY(), c.getZ()], "cls": type(c).__name__, "t": [s.year, s.month, s.day, s.hour, s.min, s.sec, s.ms, s.zone], "nf": len(o.features)})
         return out
 
-    def w_apply(self, H, tracks, op):
+    ATTRS = {"ENUCoords": ("E", "N", "U"), "GeoCoords": ("lon", "lat", "hgt"), "ECEFCoords": ("X", "Y", "Z")}
+
+    def w_apply(self, H, tracks, op, cls=None):
         kind, tr = op[0], tracks[op[1]]
+        cls = cls or self.ENU
         if kind == "a":
             return list(self.computeAbsCurv(tr))
         if kind == "s":
@@ -771,10 +811,10 @@ class P(Prop):
             if form == 1:
                 tr.setObsAnalyticalFeature(c, op[2], v)
             elif form == 2:
-                setattr(o.position, {"x": "E", "y": "N", "z": "U"}[c], v)
+                setattr(o.position, self.ATTRS[cls.__name__]["xyz".index(c)], v)
             elif form == 3:               # a new coordinate object instead of an in-place change
                 p = o.position
-                o.position = self.ENU(v if c == "x" else p.E, v if c == "y" else p.N, v if c == "z" else p.U)
+                o.position = cls(v if c == "x" else p.getX(), v if c == "y" else p.getY(), v if c == "z" else p.getZ())
             else:
                 {"x": o.position.setX, "y": o.position.setY, "z": o.position.setZ}[c](v)
             return None
@@ -827,6 +867,8 @@ class P(Prop):
                 ops.append("et:%d:%d:%s:%d" % (op[1], op[2], op[3], op[4]))
             elif kind == "tz":
                 ops.append("tz:%d:%d" % (op[1], op[2]))
+        if "cls" in case:
+            return ["C17.worldc %s %s %s" % (case["cls"], tok_list(pool, ";"), tok_list(ops, ";"))]
         return ["C17.world %s %s %s" % (case["mode"], tok_list(pool, ";"), tok_list(ops, ";"))]
 
     def w_decode(self, case, replies):
@@ -863,7 +905,8 @@ class P(Prop):
             hp = []
             for o in untok(heap, ";"):
                 w = o.split(",")
-                hp.append({"xyz": [dec(w[0]), dec(w[1]), dec(w[2])], "t": [int(x) for x in w[3:10]] + [int(w[11])], "nf": int(w[10])})
+                hp.append({"xyz": [dec(w[0]), dec(w[1]), dec(w[2])], "cls": self.COORDS[case.get("cls", "N")].__name__,
+                           "t": [int(x) for x in w[3:10]] + [int(w[11])], "nf": int(w[10])})
             rec["heap"] = hp
             ops.append(rec)
         tracks = []
@@ -1022,6 +1065,8 @@ class P(Prop):
         for h, o in enumerate(heap[:len(sym.pos)]):
             if not close(o["xyz"], sym.pos[h], 0.0, 0.0):
                 return "position of observation %d is %s, expected %s" % (h, o["xyz"], sym.pos[h])
+            if o.get("cls", "ENUCoords") != self.COORDS[sym.cls].__name__:
+                return "the position object of observation %d is a %s, was a %s" % (h, o.get("cls"), self.COORDS[sym.cls].__name__)
             if o["t"] != [sym.fld[h][f] for f in W.ZFIELDS]:
                 return "timestamp of observation %d is %s (year, month, day, hour, min, sec, ms, zone), expected %s" % (h, o["t"], [sym.fld[h][f] for f in W.ZFIELDS])
         if kind in W.NEW_OPS or kind in W.EDIT_OPS or not applicable:
@@ -1031,14 +1076,16 @@ class P(Prop):
                 sym.tainted = True          # partial effects of an exception on a misaligned table: outside the statement from here on
             return None
         if "err" in rec:
+            if sym.cls == "X" and kind in ("a", "s", "S", "f", "d", "c"):
+                return None             # ECEFCoords define no planimetric distance: the statement does not apply (purity was checked)
             return "raised %s on a track whose feature table is aligned" % rec["err"]
         # the other features of the track are left as they were
         touched = set(W.TOUCHED.get(kind, ())) | ({op[2]} if kind in ("rm", "w") else set())
         pre = dict(zip(rec["pre"]["names"], rec["pre"]["cols"]))
         post = dict(zip(rec["post"]["names"], rec["post"]["cols"]))
         for nm, col in pre.items():
-            if nm in touched:
-                continue
+            if nm in touched or nm.startswith("#"):
+                continue          # '#…' are the library's scratch names (operate(str) purges them all in its `finally`): not the user's features
             if nm not in post or not close(post[nm], col, 0.0, 0.0):
                 return "feature %s of the track changed: %s -> %s" % (nm, col, post.get(nm))
         r = rec["r"]
@@ -1050,9 +1097,11 @@ class P(Prop):
         elif stored is not None and (stored not in post or not close(post[stored], r, 0.0, 0.0)):
             return "returned %s but track['%s'] reads %s" % (r, stored, post.get(stored))
         chk = info["check"]
-        if chk is None or n < 2:
+        if chk is None or n < 2 or sym.cls == "X":
             return None
         pos = [sym.pos[h] for h in ids]
+        if sym.cls != "N":
+            return self.w_check_class(sym.cls, chk, r, pos, [sym.tms(h) for h in ids], [sym.zone(h) for h in ids], mono)
         legs = self.w_legs(sym, ids)
         if chk == "abs_curv":
             return self.chk_abscurv(r, legs)
@@ -1068,6 +1117,22 @@ class P(Prop):
             total = math.fsum(legs)
             if isnan(r) or abs(r - total) > 1e-9 * max(total, 1e-300):
                 return "length() = %r on a track of constant height, planimetric length is %r" % (r, total)
+        return None
+
+    def w_check_class(self, cls, chk, r, pos, tms, zones, mono):
+        """the clauses of the statement on a track of GeoCoords positions: every leg known as a range (c17coords.leg_range)"""
+        n = len(pos)
+        legs = [C.leg_range(cls, pos[i + 1], pos[i]) for i in range(n - 1)]
+        if chk == "abs_curv":
+            return self.chk_abscurv_rng(r, legs)
+        if chk == "ds":
+            return self.chk_ds_rng(r, legs)
+        if chk == "speed":
+            return self.chk_speed_rng(r, cls, pos, tms, zones) if mono else None
+        if chk == "curvabs":
+            lo, hi, at = math.fsum(l[0] for l in legs), math.fsum(l[1] for l in legs), sum(l[2] for l in legs)
+            if not isinstance(r, float) or isnan(r) or r < lo - at - 1e-9 * lo or r > hi + at + 1e-9 * hi:
+                return "computeCurvAbsBetweenTwoPoints = %r, planimetric length is %r%s" % (r, lo, "" if lo == hi else " .. %r" % hi)
         return None
 
     # ---------------------------------------------------------------- known-finding classes
@@ -1106,7 +1171,8 @@ class P(Prop):
 
     def w_nontrivial(self, case):
         p = case["pos"]
-        return len(p) >= 2 and any(p[i][:2] != p[i + 1][:2] for i in range(len(p) - 1)) and any(op[0] in "asSfdIE" for op in case["hist"])
+        return (case.get("cls") != "X" and len(p) >= 2 and any(p[i][:2] != p[i + 1][:2] for i in range(len(p) - 1))
+                and any(op[0] in "asSfdIE" for op in case["hist"]))
 
 
 # ---- tie to the source by translation (tools/py2lean.py -> lean/TracklibVerif/Gen/ObsCoords.lean, regenerated on every run)
